@@ -81,19 +81,19 @@ def get_relation_formula(relation: Relation) -> str:
 def get_mandatory_formula(relation: Relation) -> str:
     parent = relation.parent.name
     child = relation.children[0].name
-    return f'{parent} {PLWriter.LogicConnective.EQUIVALENCE} {child}'
+    return f'{parent} {PLWriter.LogicConnective.EQUIVALENCE.value} {child}'
 
 
 def get_optional_formula(relation: Relation) -> str:
     parent = relation.parent.name
     child = relation.children[0].name
-    return f'{child} {PLWriter.LogicConnective.IMPLIES} {parent}'
+    return f'{child} {PLWriter.LogicConnective.IMPLIES.value} {parent}'
 
 
 def get_or_formula(relation: Relation) -> str:
     parent = relation.parent.name
-    children = f" {PLWriter.LogicConnective.OR} ".join(child.name for child in relation.children)
-    return f'{parent} {PLWriter.LogicConnective.EQUIVALENCE} ({children})'
+    children = f" {PLWriter.LogicConnective.OR.value} ".join(child.name for child in relation.children)
+    return f'{parent} {PLWriter.LogicConnective.EQUIVALENCE.value} ({children})'
 
 
 def get_alternative_formula(relation: Relation) -> str:
@@ -102,11 +102,11 @@ def get_alternative_formula(relation: Relation) -> str:
     children = {child.name for child in relation.children}
     for child in children:
         children_negatives = children - {child}
-        children_neg_str = [f"{PLWriter.LogicConnective.NOT}" + ch for ch in children_negatives]
-        formula.append(f'{child} {PLWriter.LogicConnective.EQUIVALENCE} '
-                       f'({f" {PLWriter.LogicConnective.AND} ".join(children_neg_str)} '
-                       f'{PLWriter.LogicConnective.AND} {parent})')
-    return f" {PLWriter.LogicConnective.AND} ".join(f'({f})' for f in formula)
+        children_neg_str = [f"{PLWriter.LogicConnective.NOT.value} " + ch for ch in children_negatives]
+        formula.append(f'{child} {PLWriter.LogicConnective.EQUIVALENCE.value} '
+                       f'({f" {PLWriter.LogicConnective.AND.value} ".join(children_neg_str)} '
+                       f'{PLWriter.LogicConnective.AND.value} {parent})')
+    return f" {PLWriter.LogicConnective.AND.value} ".join(f'({f})' for f in formula)
 
 
 def get_mutex_formula(relation: Relation) -> str:
@@ -115,15 +115,15 @@ def get_mutex_formula(relation: Relation) -> str:
     children = {child.name for child in relation.children}
     for child in children:
         children_negatives = children - {child}
-        children_neg_str = [f"{PLWriter.LogicConnective.NOT}" + cn for cn in children_negatives]
-        formula.append(f'{child} {PLWriter.LogicConnective.EQUIVALENCE} '
-                       f'({f" {PLWriter.LogicConnective.AND} ".join(children_neg_str)} '
-                       f'{PLWriter.LogicConnective.AND} {parent})')
-    formula_str = f" {PLWriter.LogicConnective.AND} ".join(f'({f})' for f in formula)
-    or_children = f" {PLWriter.LogicConnective.OR} ".join(child for child in children)
-    return f'({parent} {PLWriter.LogicConnective.EQUIVALENCE} ' \
-           f'{PLWriter.LogicConnective.NOT}({or_children})) ' \
-           f'{PLWriter.LogicConnective.OR} ({formula_str})'
+        children_neg_str = [f"{PLWriter.LogicConnective.NOT.value} " + cn for cn in children_negatives]
+        formula.append(f'{child} {PLWriter.LogicConnective.EQUIVALENCE.value} '
+                       f'({f" {PLWriter.LogicConnective.AND.value} ".join(children_neg_str)} '
+                       f'{PLWriter.LogicConnective.AND.value} {parent})')
+    formula_str = f" {PLWriter.LogicConnective.AND.value} ".join(f'({f})' for f in formula)
+    or_children = f" {PLWriter.LogicConnective.OR.value} ".join(child for child in children)
+    return f'({parent} {PLWriter.LogicConnective.EQUIVALENCE.value} ' \
+           f'{PLWriter.LogicConnective.NOT.value} ({or_children})) ' \
+           f'{PLWriter.LogicConnective.OR.value} ({formula_str})'
 
 
 def get_cardinality_formula(relation: Relation) -> str:
@@ -134,16 +134,16 @@ def get_cardinality_formula(relation: Relation) -> str:
         combi_k = list(itertools.combinations(children, k))
         for positives in combi_k:
             negatives = children - set(positives)
-            negatives_str = [f"{PLWriter.LogicConnective.NOT}" + f for f in negatives]
-            positives_and_ctc = f'{f" {PLWriter.LogicConnective.AND} ".join(positives)}'
-            negatives_and_ctc = f'{f" {PLWriter.LogicConnective.AND} ".join(negatives_str)}'
+            negatives_str = [f"{PLWriter.LogicConnective.NOT.value} " + f for f in negatives]
+            positives_and_ctc = f'{f" {PLWriter.LogicConnective.AND.value} ".join(positives)}'
+            negatives_and_ctc = f'{f" {PLWriter.LogicConnective.AND.value} ".join(negatives_str)}'
             if positives_and_ctc and negatives_and_ctc:
-                and_ctc = f'{positives_and_ctc} {PLWriter.LogicConnective.AND} {negatives_and_ctc}'
+                and_ctc = f'{positives_and_ctc} {PLWriter.LogicConnective.AND.value} {negatives_and_ctc}'
             else:
                 and_ctc = f'{positives_and_ctc}{negatives_and_ctc}'
             or_ctc.append(and_ctc)
-    formula_or_ctc = f'{f" {PLWriter.LogicConnective.OR} ".join(or_ctc)}'
-    return f'{parent} {PLWriter.LogicConnective.EQUIVALENCE} {formula_or_ctc}'
+    formula_or_ctc = f'{f" {PLWriter.LogicConnective.OR.value} ".join(or_ctc)}'
+    return f'{parent} {PLWriter.LogicConnective.EQUIVALENCE.value} {formula_or_ctc}'
 
 
 def get_constraint_formula(ctc: Constraint) -> str:
